@@ -37,6 +37,13 @@ def build_cases(chk):
         else:
             c.update(updS=many, updC=late, lateC=len(many) - 1)
         cases.append(c)
+    # the session starts with the server's NewSessionTicket flight outstanding (its first transmission is lost): the server
+    # updates at once and keeps writing; whatever is re-sent later belongs to the generation it is sent under
+    for j in range(4 if chk.quick else 16):
+        cases.append({"id": len(cases), "seed": rng.randint(1, 10 ** 9), "intervalMs": rng.choice([15, 30]), "loss": rng.choice([0, 0, 10]),
+                      "dup": 0, "delay": rng.choice([0, 10]), "writers": 2, "writes": rng.choice([25, 160]), "callers": 1, "craft": "", "suite": "",
+                      "updS": [rng.random() < 0.5 for _ in range(rng.choice([1, 2]))], "updC": [True] if j % 4 == 3 else [],
+                      "ticketLost": True})
     return cases
 
 
